@@ -81,7 +81,7 @@ func gen(r *harn.Rng, tier string) interface{} {
 		case 8:
 			op.Kind, op.Ref = "same", r.Intn(4)
 		case 9:
-			op.Kind = "epoch"
+			op.Kind, op.Ref = "epoch", r.Intn(2)
 		case 0:
 			op.Kind = "zero"
 		case 1:
@@ -315,7 +315,7 @@ func run(env *simrt.Env, sci interface{}) {
 				case "future":
 					v = env.Now().Add(time.Duration(o.DurNs))
 				case "epoch":
-					v = time.Unix(0, 1)
+					v = time.Unix(0, int64(o.Ref%2)) // 1970-01-01 00:00:00 exactly, or a nanosecond later: long past, not "none"
 				case "same":
 					var prev []time.Time
 					for _, s := range sets {
